@@ -4,7 +4,7 @@ from ..rules import drivers, step
 META = {
     "title": "emu-sv noiseless runs reproduce the Pulser Hamiltonian dynamics",
     "technique": "static analysis: path-sensitive abstract interpretation of the emu-sv driver loop with a "
-                 "symbolic step index; affine normal forms of time/row indices; argument-role binding",
+                 "symbolic step index; affine normal forms of time/row indices; argument-role binding; flag/branch mapping of the phase-free fast path; polynomial shape of the generator",
     "design_ref": "DESIGN.md §5 C01, A.2",
     "explanation": "STEP-sv/UNITS-sv/ROLE-sv/HERM: symbolic evaluation of SVBackendImpl._run → step(k) shows that "
                    "step k hands the stepper dt = 1e-3·(T[k+1]−T[k]), rows omega[k], delta[k], phi[k], the "
